@@ -1354,9 +1354,37 @@ type KeyParams struct {
 	// elements are themselves the inner collections (arrays / typed maps of
 	// different sizes, shape OuterSel); Outer/Inner are ignored.
 	Ragged string `json:",omitempty"`
+	// Twin: every stage call has a sibling calling the same stage with the
+	// same arguments under an id that extends its own (X and X_2): one
+	// name is a prefix of the other.
+	Twin bool `json:",omitempty"`
+}
+
+// withTwins adds, next to every stage call X of every pipeline, the call
+// "X_2" (same callee, same bindings and modifiers; its outputs are unused).
+func withTwins(p *Program) *Program {
+	for _, pl := range p.Pipelines {
+		var calls []*Call
+		for _, c := range pl.Calls {
+			calls = append(calls, c)
+			if p.Stage(c.Callee) == nil || c.Preflight {
+				continue
+			}
+			t := *c
+			t.Alias = c.Id() + "_2"
+			calls = append(calls, &t)
+		}
+		pl.Calls = calls
+	}
+	return p
 }
 
 func (d KeyParams) String() string {
+	if d.Twin {
+		e := d
+		e.Twin = false
+		return strings.TrimSuffix(e.String(), "}") + " twin}"
+	}
 	if d.Ragged != "" {
 		return fmt.Sprintf("keys{ragged=%s/%v/%d chunks=%d}", d.Ragged, d.OuterDyn, d.OuterSel, d.Chunks)
 	}
@@ -1453,6 +1481,16 @@ func keySource(kind string, dyn bool, sel int, call string) (*Exp, *T) {
 
 // KeyFlow builds the program for d.
 func KeyFlow(d KeyParams) *Program {
+	if d.Twin {
+		e := d
+		e.Twin = false
+		p := KeyFlow(e)
+		if p == nil {
+			return nil
+		}
+		p.Desc = d.String()
+		return withTwins(p)
+	}
 	if d.Ragged != "" {
 		return raggedFlow(d)
 	}
@@ -1612,6 +1650,14 @@ func KeyFamily(thorough bool) []KeyParams {
 		}
 	}
 	out = append(out, RaggedFamily(thorough)...)
+	// sibling calls one of whose ids is a prefix of the other's: the two-level
+	// nests with plain keys again, every stage call doubled
+	for _, d := range NestFamily(thorough) {
+		if d.Ragged == "" {
+			d.Twin = true
+			out = append(out, d)
+		}
+	}
 	return out
 }
 
